@@ -74,7 +74,13 @@ type C14Case struct {
 	Root    []*TNode   `json:"root"`
 	Source  string     `json:"source"`
 	Files   []*C14File `json:"files"`
-	History []C14Step  `json:"history,omitempty"`
+	// a second root in a sibling directory that includes the same files (and has
+	// files of the same names of its own): nested includes must resolve against
+	// whichever root is being rendered
+	Root2Rel string     `json:"root2_rel,omitempty"`
+	Root2    []*TNode   `json:"root2,omitempty"`
+	Files2   []*C14File `json:"files2,omitempty"`
+	History  []C14Step  `json:"history,omitempty"`
 	// failing execution
 	FaultJ     int    `json:"fault_call"` // -1: no injected fault
 	FaultErrno string `json:"fault_errno,omitempty"`
@@ -110,8 +116,10 @@ func genC14(seed uint64, r *Rng, idx, vecs int) *C14Case {
 	}
 	argsFor := func(i int) []string {
 		f := cs.Files[i]
+		stem := strings.TrimSuffix(f.Rel, ".html")
 		return []string{quote(f.Rel), quote(f.Rel), fmt.Sprintf("inc%d", i), fmt.Sprintf(`stem%d | append: ".html"`, i),
-			quote("./" + f.Rel), quote("x/../" + f.Rel)}
+			quote("./" + f.Rel), quote("x/../" + f.Rel),
+			quote(stem) + ` | append: ".html"`, `'` + stem + `' | append: '.html'`, quote("zz"+f.Rel) + ` | remove: "zz"`}
 	}
 	// file contents: file i may include files j>i if it lives in the root's directory
 	for i := n - 1; i >= 0; i-- {
@@ -119,7 +127,7 @@ func genC14(seed uint64, r *Rng, idx, vecs int) *C14Case {
 		mkTree := func(tag uint64) []*TNode {
 			g := NewGen(gr2.Fork(uint64(i)*7+tag), gr2.Range(1, 8))
 			delete(g.feat, "errors")
-			if !strings.Contains(f.Rel, "/") && i < n-1 && i < 3 {
+			if i < n-1 && i < 3 {
 				for j := i + 1; j < n; j++ {
 					g.incArgs = append(g.incArgs, argsFor(j)[:3]...)
 				}
@@ -143,6 +151,30 @@ func genC14(seed uint64, r *Rng, idx, vecs int) *C14Case {
 	// make sure at least one include executes unconditionally
 	root = append(root, &TNode{K: "tag", S: "include " + pick(gr2, argsFor(gr2.Intn(n)))})
 	cs.Root = root
+	if gr2.Chance(0.6) {
+		// second root in a sibling directory of the first
+		d := append(append([]string{}, dirs[:len(dirs)-1]...), "q1")
+		cs.Root2Rel = filepath.Join(append(d, "root2.html")...)
+		up := "../" + dirs[len(dirs)-1] + "/"
+		g2 := NewGen(gr2.Fork(98), gr2.Range(2, 10))
+		delete(g2.feat, "errors")
+		for i := range cs.Files {
+			for _, a := range argsFor(i)[:2] {
+				g2.incArgs = append(g2.incArgs, quote(up+strings.Trim(a, `"'`)))
+			}
+		}
+		for _, nme := range []string{"a.html", "b.html", "f.html"} {
+			f2 := &C14File{Rel: nme, State: pick(gr2, []int{stDisk, stDisk, stMissing, stCache})}
+			f2.Tree = []*TNode{{K: "text", S: "[q1/" + nme + "]"}, {K: "obj", S: "zz"}}
+			f2.Alt = []*TNode{{K: "text", S: "[q1-cached/" + nme + "]"}}
+			cs.Files2 = append(cs.Files2, f2)
+			g2.incArgs = append(g2.incArgs, quote(nme))
+		}
+		r2 := []*TNode{{K: "tag", S: `assign zz = "<zz-root2>"`}}
+		r2 = append(r2, g2.Template(cs.Env)...)
+		r2 = append(r2, &TNode{K: "tag", S: "include " + quote(up+cs.Files[0].Rel)})
+		cs.Root2 = r2
+	}
 
 	// state vector: distinct per (idx % vecs) within a graph
 	V := 1
@@ -168,6 +200,12 @@ func genC14(seed uint64, r *Rng, idx, vecs int) *C14Case {
 	}
 	for i, k := 0, r.Range(0, 3); i < k; i++ {
 		cs.History = append(cs.History, C14Step{Op: pick(r, []string{"create", "delete", "replace"}), File: r.Intn(n)})
+	}
+	if cs.Root2 != nil {
+		cs.History = append(cs.History, C14Step{Op: "switch-root"})
+		if r.Chance(0.5) {
+			cs.History = append(cs.History, C14Step{Op: "switch-root"})
+		}
 	}
 	return cs
 }
@@ -241,11 +279,17 @@ func segment(out string, id int) (string, bool) {
 type c14Run struct {
 	cs      *C14Case
 	dir     string // case directory
-	rootAbs string
+	rootAbs string // of the root currently being rendered
 	rootDir string
-	eng     *liquid.Engine
-	tpl     *liquid.Template
-	b       map[string]any
+	roots   [2]struct {
+		abs, dir string
+		tpl      *liquid.Template
+		tree     []*TNode
+	}
+	cur int
+	eng *liquid.Engine
+	tpl *liquid.Template
+	b   map[string]any
 	// disk/cache model
 	onDisk  map[string]string // abs path -> content currently on disk
 	cache   map[string]string // abs path -> cached content
@@ -267,8 +311,23 @@ func c14Setup(cs *C14Case, scratch string, tag string) (*c14Run, Res) {
 	x.eng = NewEngine(cs.Cfg)
 	registerSnap(x.eng)
 	x.b = cs.Env.Build(nil)
+	type placed struct {
+		f *C14File
+		p string
+	}
+	var all []placed
 	for _, f := range cs.Files {
-		p := x.abs(f.Rel)
+		all = append(all, placed{f, x.abs(f.Rel)})
+	}
+	if cs.Root2 != nil {
+		d2 := filepath.Dir(filepath.Join(x.dir, cs.Root2Rel))
+		os.MkdirAll(d2, 0o755)
+		for _, f := range cs.Files2 {
+			all = append(all, placed{f, filepath.Join(d2, f.Rel)})
+		}
+	}
+	for _, pl := range all {
+		f, p := pl.f, pl.p
 		content, alt := Source(f.Tree), Source(f.Alt)
 		cacheIt := func(src string) Res {
 			return guard(func() Res {
@@ -313,7 +372,26 @@ func c14Setup(cs *C14Case, scratch string, tag string) (*c14Run, Res) {
 		return nil, p.Err
 	}
 	x.tpl = p.T
+	x.roots[0].abs, x.roots[0].dir, x.roots[0].tpl, x.roots[0].tree = x.rootAbs, x.rootDir, p.T, cs.Root
+	if cs.Root2 != nil {
+		a2 := filepath.Join(x.dir, cs.Root2Rel)
+		p2 := ParseLoc(x.eng, Source(cs.Root2), a2, 1)
+		if p2.T == nil {
+			return nil, p2.Err
+		}
+		x.roots[1].abs, x.roots[1].dir, x.roots[1].tpl, x.roots[1].tree = a2, filepath.Dir(a2), p2.T, cs.Root2
+	}
 	return x, Res{OK: true}
+}
+
+// switchRoot makes the other root the one being rendered.
+func (x *c14Run) switchRoot() {
+	if x.roots[1].tpl == nil {
+		return
+	}
+	x.cur = 1 - x.cur
+	r := x.roots[x.cur]
+	x.rootAbs, x.rootDir, x.tpl = r.abs, r.dir, r.tpl
 }
 
 func (x *c14Run) writeFile(p, content string) {
@@ -529,12 +607,16 @@ func (x *c14Run) judgeFault(o *c14Out, p, en string, absent Res, exact bool) {
 		o.clause, o.detail = "no-output-on-error", fmt.Sprintf("Render returned an error and %d bytes of output", len(res.Out))
 	case !cached && res.OK:
 		o.clause, o.detail = "read-error-fails", fmt.Sprintf("reading the include target %s failed with %s and nothing is cached for it, yet the render succeeded with %q", filepath.Base(p), en, clip(stripMarkers(res.Out)))
+	case cached && en != "ENOENT" && res.OK && x.isFile(p) && exact:
+		o.clause, o.detail = "file-on-disk-takes-precedence", fmt.Sprintf("%s exists on disk as a regular file but reading it failed with %s; the render succeeded with %s: cached source was used although a file on disk takes precedence over it", filepath.Base(p), en, clip(plainKey(res)))
 	case cached && en == "ENOENT" && plainKey(res) != plainKey(absent):
 		o.clause, o.detail = "cache-used-when-no-file", fmt.Sprintf("the read of %s reported that no such file exists and source is cached for it; expected the result of rendering with the file absent (%s) but got %s err=%q", filepath.Base(p), clip(plainKey(absent)), clip(plainKey(res)), res.Err)
 	case cached && res.OK && plainKey(res) != plainKey(absent):
 		o.clause, o.detail = "unreadable-cached-is-error-or-cache", fmt.Sprintf("reading %s failed with %s; the render succeeded with %s, which is not what rendering the cached source gives (%s)", filepath.Base(p), en, clip(plainKey(res)), clip(plainKey(absent)))
 	}
 }
+
+func (x *c14Run) isFile(p string) bool { _, ok := x.onDisk[p]; return ok }
 
 func (x *c14Run) whichSource(p string) string {
 	if _, ok := x.onDisk[p]; ok {
@@ -563,7 +645,7 @@ func (x *c14Run) failsWithoutIncludes() bool {
 		}
 		return out
 	}
-	p := ParseLoc(x.eng, Source(strip(x.cs.Root)), x.rootAbs, 1)
+	p := ParseLoc(x.eng, Source(strip(x.roots[x.cur].tree)), x.rootAbs, 1)
 	if p.T == nil {
 		return true
 	}
@@ -593,8 +675,12 @@ type c14Fail struct {
 }
 
 func (x *c14Run) applyStep(s C14Step) {
+	if s.Op == "switch-root" {
+		x.switchRoot()
+		return
+	}
 	f := x.cs.Files[s.File]
-	p := x.abs(f.Rel)
+	p := filepath.Join(x.roots[0].dir, f.Rel)
 	if _, sp := x.special[p]; sp {
 		return
 	}
